@@ -31,7 +31,7 @@ var c03Hangs int32
 func init() { register("C03", checkC03) }
 
 func c03Try(c *Ctx, src, origin string, cas interface{}) {
-	if atomic.LoadInt32(&c03Hangs) > 6 {
+	if atomic.LoadInt32(&c03Hangs) > 2 {
 		return // do not pile up spinning goroutines; the hangs found so far are the verdict
 	}
 	shape := ""
@@ -66,7 +66,7 @@ func c03Try(c *Ctx, src, origin string, cas interface{}) {
 	switch {
 	case o.Hang:
 		atomic.AddInt32(&c03Hangs, 1)
-		c.Fail("hang", fmt.Sprintf("Parse of %q did not return within 3s", trunc(src, 120)), cas)
+		c.Fail("hang", fmt.Sprintf("Parse of %q did not return within 63s (3s watchdog, then 60s more)", trunc(src, 120)), cas)
 	case o.Panic != "":
 		c.Fail("panic@"+o.Site, fmt.Sprintf("Parse of %q panicked: %s (in %s)", trunc(src, 120), trunc(o.Panic, 120), o.Site), cas)
 	}
@@ -282,7 +282,7 @@ func c03Model(c *Ctx) error {
 		switch {
 		case o.Hang:
 			atomic.AddInt32(&c03Hangs, 1)
-			c.Fail("hang", fmt.Sprintf("parser.Parse(%q) did not return within 3s", src), cas)
+			c.Fail("hang", fmt.Sprintf("parser.Parse(%q) did not return within 63s (3s watchdog, then 60s more)", src), cas)
 		case o.Panic != "":
 			c.Fail("panic@"+o.Site, fmt.Sprintf("parser.Parse(%q) panicked: %s (in %s)", src, trunc(o.Panic, 120), o.Site), cas)
 		case (perr != nil) != pc.Errs:
